@@ -1,5 +1,6 @@
 import Rustemo.Proofs.Forest
 import Rustemo.Proofs.GlrTop
+import Rustemo.Proofs.GlrLayout
 import Rustemo.Proofs.GlrEnum
 import Rustemo.Proofs.GlrExample
 /-!
@@ -120,6 +121,16 @@ theorem C03_engine_no_panic_plain_table (env : Env) (hcert : Cert.glr env.g env.
     ∀ site, Glr.parse env partialParse fuel ≠ .panic site :=
   Glr.parse_no_panic env hcert (layoutSafe_of_lr env hlr) partialParse fuel
 
+/-- **(b), fully certified.**  With the layout automaton covered by the certificate as well (`Cert.glrLayout`:
+    it is one of the automata of the structural certificate and passes `Cert.total`; trivially true without a
+    Layout rule) no hypothesis is left: the nested LR layout parser is panic free on right-nulled tables too
+    (`Proofs/GlrLayout.lean`), so `GlrParser::parse` reaches no panic site, whatever the input, the recognizers,
+    the lexer, partial parsing and the fuel. -/
+theorem C03_engine_no_panic_certified (env : Env) (hcert : Cert.glr env.g env.t = true)
+    (hlay : Cert.glrLayout env.g env.t = true) (partialParse : Bool) (fuel : Nat) :
+    ∀ site, Glr.parse env partialParse fuel ≠ .panic site :=
+  Glr.parse_no_panic env hcert (layoutSafe_of_cert env hcert hlay) partialParse fuel
+
 /-- non-vacuity: the certificate holds of the table the real compiler builds for the right-nullable ambiguous
     grammar `S: 'a' S A | EMPTY; A: 'a' | EMPTY` (right-nulled reductions `reduce 1 1`, `reduce 1 2`) … -/
 example : Cert.glr Glr.Example.g Glr.Example.t = true := by decide +kernel
@@ -128,7 +139,8 @@ example : Cert.glr Glr.Example.g Glr.Example.t = true := by decide +kernel
 example : Glr.Example.solutionsOf (Glr.parse (Glr.Example.env 2) false 9) = some 2 := by decide +kernel
 example : Glr.Example.solutionsOf (Glr.parse (Glr.Example.env 3) false 12) = some 3 := by decide +kernel
 
-/-- … and `LayoutSafe` holds of it (no Layout rule). -/
+/-- … and `LayoutSafe` / `Cert.glrLayout` hold of it (no Layout rule). -/
 example : (Glr.Example.env 2).t.layoutState = none := rfl
+example : Cert.glrLayout Glr.Example.g Glr.Example.t = true := by decide
 
 end Rustemo.Props.C03
